@@ -91,6 +91,12 @@ inductive S where
   | lenFail                                   -- `from_iter_length_fail(N)`: the "expected N items" panic
   | forSlots (body : S) (k : S)               -- `builder_iter.enumerate().for_each(|(i, dst)| body)`: binds `i`, `dst`
   | callG (arg : X) (k : S)                   -- `let v = f(arg);`: the caller's closure returns a value (binds it)
+  | callM (arg : X) (k : S)                   -- `let v = f(arg);`: the caller's closure consumes `arg`, returns a value
+  | fillMapS (l0 : Nat) (src : Obj) (clo : S) (body : S) (k : S)
+                                              -- `destination.zip(src_iter.map(clo)).for_each(|(dst, v)| body)`: `clo` runs in
+                                              -- the environment of its creation (`env.take l0`) plus the source slot
+  | pollMapS (l0 : Nat) (src : Obj) (clo : S) (k : S)
+                                              -- `src_iter.map(clo).next().is_some()`
   | endOut (k : S)                            -- an inlined callee returns: its local builder, unless forgotten, is
                                               -- dropped here (`Drop for IntrusiveArrayBuilder`: `array[..position]`)
   | opaque (why : Nat)                        -- a statement the translator could not lower
@@ -304,6 +310,24 @@ def fillLoop (c : Ctx) (destFirst : Bool) (body : V → V → St → List Ev × 
     | .done => ([.poll st.polls], .ret .unit, { st with polls := st.polls + 1 })
     | .panic => ([.poll st.polls, .panic st.polls], .panicked, { st with polls := st.polls + 1 })
 
+/-- `destination.zip(src_iter.map(clo)).for_each(body)`: per round one destination slot (polled
+    first), the next slot of the source array (the `slice::Iter` inside the `Map`; `polls` is its
+    cursor), the closure on it, then the body on (slot, mapped value) -/
+def mapLoop (src : Obj) (clo : V → St → List Ev × R × St) (body : V → V → St → List Ev × R × St) :
+    List V → St → List Ev × R × St
+  | [], st => ([], .ret .unit, st)
+  | d :: ds, st =>
+    if st.polls < (st.obj src).slots.length then
+      match clo (.slot src st.polls) { st with polls := st.polls + 1 } with
+      | (tr, .ret v, st') =>
+        match body d v st' with
+        | (tr2, .ret _, st'') =>
+          let r := mapLoop src clo body ds st''
+          (tr ++ tr2 ++ r.1, r.2)
+        | (tr2, r, st'') => (tr ++ tr2, r, st'')
+      | r => r
+    else ([], .ret .unit, st)
+
 def positions (o : Obj) (lo hi : Nat) : List V := (List.range' lo (hi - lo)).map (V.slot o)
 
 def exec (c : Ctx) : S → List V → St → List Ev × R × St
@@ -424,6 +448,31 @@ def exec (c : Ctx) : S → List V → St → List Ev × R × St
         (.take a y :: r.1, r.2)
       | none => ([.panic a], .panicked, { st with calls := st.calls + 1 })
     | none => ([], .ub, st)
+  | .callM arg k, env, st =>
+    match eval c env st arg with
+    | some (.elem x) =>
+      match c.cl st.calls with
+      | some y =>
+        let r := exec c k (env ++ [.elem y]) { st with calls := st.calls + 1 }
+        (.give st.calls x :: .take st.calls y :: r.1, r.2)
+      | none => ([.give st.calls x, .panic st.calls], .panicked, { st with calls := st.calls + 1 })
+    | _ => ([], .ub, st)
+  | .fillMapS l0 src clo body k, env, st =>
+    match mapLoop src (fun q s => exec c clo (env.take l0 ++ [q]) s) (fun d v s => exec c body (env ++ [d, v]) s)
+        (positions .out 0 st.out.slots.length) st with
+    | (tr, .ret _, st') =>
+      let r := exec c k env st'
+      (tr ++ r.1, r.2)
+    | r => r
+  | .pollMapS l0 src clo k, env, st =>
+    if st.polls < (st.obj src).slots.length then
+      match exec c clo (env.take l0 ++ [.slot src st.polls]) { st with polls := st.polls + 1 } with
+      | (tr, .ret (.elem y), st') =>
+        let r := exec c k (env ++ [.bool true]) st'
+        (tr ++ .drop y :: r.1, r.2)
+      | (tr, .ret _, st') => (tr, .ub, st')
+      | r => r
+    else exec c k (env ++ [.bool false]) st
   | .endOut k, env, st =>
     if st.hasOut && !st.outForgot then
       let r := exec c k env { st with outForgot := true }
@@ -499,10 +548,33 @@ def loopBodyOf : S → S
   | .newBuilder k => loopBodyOf k
   | .fillS _ b _ => b
   | .forSlots b _ => b
+  | .fillMapS _ _ _ b _ => b
   | _ => .opaque 0
 
 /-- the per-round function of a `fillS` loop, as a named constant -/
 def fillBody (c : Ctx) (body : S) (env : List V) : V → V → St → List Ev × R × St :=
   fun d x s => exec c body (env ++ [d, x]) s
+
+/-- like `runFn`, with separate destructors for `self` (e.g. an `ArrayConsumer`) and for the local
+    struct value `out` (e.g. the builder); unwinding drops the inner frame's builder first -/
+def runFn2 (c : Ctx) (dropSelf dropOut : S) (f : Fn) (args : List V) (st : St) : List Ev × R × St :=
+  let r := exec c f.body args st
+  let st' := r.2.2
+  match r.2.1 with
+  | .ub => r
+  | res =>
+    let returnsOut := res == .ret .obj
+    let d1 : List Ev × R :=
+      if st'.hasOut && !returnsOut && !st'.outForgot then runDropOn c dropOut .out st' else ([], .ret .unit)
+    let d2 : List Ev × R :=
+      if f.recv == .owned && !st'.forgot then runDropOn c dropSelf .self st' else ([], .ret .unit)
+    let res' :=
+      match d1.2, d2.2 with
+      | .ub, _ => R.ub
+      | _, .ub => R.ub
+      | .panicked, _ => R.panicked
+      | _, .panicked => R.panicked
+      | _, _ => res
+    (r.1 ++ d1.1 ++ d2.1, res', st')
 
 end GA.Body
